@@ -561,3 +561,38 @@ Example tess_example :
   | None => false
   end = true.
 Proof. vm_compute. reflexivity. Qed.
+
+(** * 7. Mercator at the poles: the exp overflow / underflow branches of ToLatLng
+    ([fexp] stands for math.Exp, amd64 assembly without a model; the correspondence hands the model the value
+    the Go run computed). Whenever exp overflows to +Inf the latitude is pi/2 exactly and the unprojected point
+    has z = 1 (no NaN); whenever it underflows to 0 the latitude is -pi/2 and z = -1. *)
+Definition merc_exp_arg (p : plate_carree) (pt : r2_Point) : PrimFloat.float :=
+  PrimFloat.mul (PrimFloat.mul 2 (pc_toRadians p)) (r2_Point_Y pt).
+
+Lemma merc_to_latlng_overflow fexp p pt : fexp (merc_exp_arg p pt) = infinity ->
+  s2_LatLng_Lat (merc_ToLatLng fexp p pt) = f_pi_2 /\
+  r3_Vector_Z (s2_Point_Vector (s2_PointFromLatLng (merc_ToLatLng fexp p pt))) = 1%float.
+Proof.
+  unfold merc_exp_arg. intros H. unfold merc_ToLatLng. rewrite H. cbv zeta.
+  change (go_isinf infinity 0) with true. cbv iota. split; [reflexivity|].
+  unfold s2_PointFromLatLng. cbn [s2_LatLng_Lat s2_LatLng_Lng s2_Point_Vector r3_Vector_Z s1_Angle_Radians].
+  unfold s1_Angle_Radians. vm_compute. reflexivity.
+Qed.
+
+Lemma merc_to_latlng_underflow fexp p pt : fexp (merc_exp_arg p pt) = 0%float ->
+  s2_LatLng_Lat (merc_ToLatLng fexp p pt) = PrimFloat.opp f_pi_2 /\
+  r3_Vector_Z (s2_Point_Vector (s2_PointFromLatLng (merc_ToLatLng fexp p pt))) = (-1)%float.
+Proof.
+  unfold merc_exp_arg. intros H. unfold merc_ToLatLng. rewrite H. cbv zeta.
+  change (go_isinf 0 0) with false. cbv iota.
+  assert (E : math_Asin (PrimFloat.div (PrimFloat.sub 0 1) (PrimFloat.add 0 1)) = PrimFloat.opp f_pi_2)
+    by (vm_compute; reflexivity).
+  rewrite E. split; [reflexivity|].
+  unfold s2_PointFromLatLng. cbn [s2_LatLng_Lat s2_LatLng_Lng s2_Point_Vector r3_Vector_Z s1_Angle_Radians].
+  unfold s1_Angle_Radians. vm_compute. reflexivity.
+Qed.
+
+(** without the overflow branch (seeded mutant C20-mut3) the latitude at k = +Inf is NaN *)
+Lemma merc_without_overflow_branch_refuted :
+  go_isnan (math_Asin (PrimFloat.div (PrimFloat.sub infinity 1) (PrimFloat.add infinity 1))) = true.
+Proof. vm_compute. reflexivity. Qed.
